@@ -217,14 +217,26 @@ class LocMap:
                 # when offset is defined (even if it is zero), null slice is not sufficiently specific; need to convert to an explicit slice relative to the offset
                 return slice(offset, len(positions) + offset) #type: ignore
             try:
-                return slice(*cls.map_slice_args(
+                start, stop, step = cls.map_slice_args(
                         label_to_pos.get, #type: ignore
                         key,
                         labels,
                         offset)
-                        )
             except LocEmpty:
                 return EMPTY_SLICE
+            if offset_apply:
+                # positions are shifted by an offset into a larger sequence: an open end must not run past this index
+                if step is None or step > 0: #type: ignore
+                    if start is None:
+                        start = offset
+                    if stop is None:
+                        stop = offset + len(positions) #type: ignore
+                else:
+                    if start is None:
+                        start = offset + len(positions) - 1 #type: ignore
+                    if stop is None and offset > 0: #type: ignore
+                        stop = offset - 1 #type: ignore
+            return slice(start, stop, step)
 
         if isinstance(key, np.datetime64):
             # convert this to the target representation, do a Boolean selection
